@@ -7,6 +7,7 @@ import (
 	"go/token"
 	"go/types"
 	"sort"
+	"strings"
 
 	"golang.org/x/tools/go/ssa"
 )
@@ -313,6 +314,13 @@ func (c *Ctx) ownership(r *Report, rule, structName, field string, allowed map[s
 		key := fmt.Sprintf("%s.%s/%s", structName, field, fn)
 		if reason, ok := allowed[fn]; ok {
 			r.ok(rule, key, fmt.Sprintf("%v — %s", kinds, reason))
+		} else if reach := c.compilerReach(); len(kinds) == 1 && kinds[0] == "read" && reach != nil && !reach[fn] && c.confinedReader(fn, structName, field) {
+			// reading cannot break what the owners establish: a function outside the compiler that only indexes,
+			// measures or ranges over the field (a listing, a lookup) needs no entry in the table
+			r.ok(rule, key, "[read] — confined read-only access outside the compiler (not reachable from parse; the value is only indexed, measured or ranged over)")
+		} else if parent, isLit := litParent(fn); isLit && ownerOrHelper(c, parent, allowed) {
+			// a function literal written in the body of an owner is that owner's code
+			r.ok(rule, key, fmt.Sprintf("%v — function literal inside %s", kinds, parent))
 		} else if owner, ok := c.privateHelperOf(fn, allowed, 0); ok {
 			// a helper that only the owners call is part of them (the same code, moved into a function of its own)
 			r.ok(rule, key, fmt.Sprintf("%v — private helper of %s (called from nowhere else, never used as a value)", kinds, owner))
@@ -330,45 +338,123 @@ func (c *Ctx) ownership(r *Report, rule, structName, field string, allowed map[s
 }
 
 // callersByName: for every module function, the names of the functions that
-// call it statically; valueUse marks functions that are also used as values
-// (stored, passed, bound) — those can be reached from anywhere.
+// call it statically or hold it as a value inside their own body (a local table of
+// steps, an argument of a call within the module); valueUse marks functions whose
+// value escapes (stored in a global, returned, sent, converted to an interface,
+// handed to code outside the module) — those can be reached from anywhere.
 func (c *Ctx) callersByName() (callers map[string]map[string]bool, valueUse map[string]bool) {
 	if c.callerCache != nil {
 		return c.callerCache, c.valueUseCache
 	}
 	callers, valueUse = map[string]map[string]bool{}, map[string]bool{}
 	c.vmModel() // role names for closures and helper methods
+	nameOf := func(fn *ssa.Function) string {
+		if fn.Synthetic != "" && fn.Object() != nil {
+			if o, ok := fn.Object().(*types.Func); ok {
+				return funcName(o) // bound-method and thunk wrappers stand for the method
+			}
+		}
+		if fn.Synthetic != "" {
+			// a wrapper without an object (bound method closure): it stands for the method it calls
+			for _, b := range fn.Blocks {
+				for _, ins := range b.Instrs {
+					if ci, ok := ins.(ssa.CallInstruction); ok {
+						if callee := ci.Common().StaticCallee(); callee != nil && inRepo(callee) {
+							return ssaFuncName(callee)
+						}
+					}
+				}
+			}
+		}
+		return ssaFuncName(fn)
+	}
+	add := func(callee, from string) {
+		if callers[callee] == nil {
+			callers[callee] = map[string]bool{}
+		}
+		callers[callee][from] = true
+	}
 	for _, f := range c.allFuncs() {
 		from := ssaFuncName(f)
 		for _, b := range f.Blocks {
 			for _, ins := range b.Instrs {
 				if ci, ok := ins.(ssa.CallInstruction); ok {
 					if callee := ci.Common().StaticCallee(); callee != nil && inRepo(callee) {
-						n := ssaFuncName(callee)
-						if callers[n] == nil {
-							callers[n] = map[string]bool{}
-						}
-						callers[n][from] = true
+						add(nameOf(callee), from)
 					}
 				}
 				for _, op := range ins.Operands(nil) {
 					fn, ok := (*op).(*ssa.Function)
-					if !ok || !inRepo(fn) {
+					if !ok {
 						continue
+					}
+					if !inRepo(fn) {
+						// a synthetic wrapper (bound method closure, thunk) of a module method is a use of that method
+						o, _ := fn.Object().(*types.Func)
+						if fn.Synthetic == "" || o == nil || o.Pkg() == nil || (o.Pkg().Path() != bclPath && o.Pkg().Path() != cmdPath) {
+							continue
+						}
 					}
 					if ci, isCall := ins.(ssa.CallInstruction); isCall && ci.Common().Value == ssa.Value(fn) {
 						continue
 					}
-					if _, isClosure := ins.(*ssa.MakeClosure); isClosure && fn.Parent() == f {
+					if _, isClosure := ins.(*ssa.MakeClosure); isClosure && fn.Parent() == f && f != nil && fn.Parent() != nil {
 						continue // a closure made by its parent: its uses are the parent's business
 					}
-					valueUse[ssaFuncName(fn)] = true
+					escapes := false
+					switch x := ins.(type) {
+					case *ssa.Store:
+						// stored anywhere but into a local allocation (a local table of steps)
+						base := x.Addr
+						for {
+							switch a := base.(type) {
+							case *ssa.IndexAddr:
+								base = a.X
+								continue
+							case *ssa.FieldAddr:
+								base = a.X
+								continue
+							}
+							break
+						}
+						if _, local := base.(*ssa.Alloc); !local {
+							escapes = true
+						}
+					case *ssa.Return, *ssa.Send, *ssa.MakeInterface, *ssa.MapUpdate:
+						escapes = true
+					case ssa.CallInstruction:
+						if callee := x.Common().StaticCallee(); callee == nil || !inRepo(callee) {
+							escapes = true
+						}
+					}
+					if escapes {
+						valueUse[nameOf(fn)] = true
+					} else {
+						add(nameOf(fn), from)
+					}
 				}
 			}
 		}
 	}
 	c.callerCache, c.valueUseCache = callers, valueUse
 	return
+}
+
+// litParent: "F$lit#2" -> "F" (function literals without a role name).
+func litParent(fn string) (string, bool) {
+	i := strings.Index(fn, "$lit#")
+	if i < 0 {
+		return "", false
+	}
+	return fn[:i], true
+}
+
+func ownerOrHelper(c *Ctx, fn string, allowed map[string]string) bool {
+	if _, ok := allowed[fn]; ok {
+		return true
+	}
+	_, ok := c.privateHelperOf(fn, allowed, 0)
+	return ok
 }
 
 // privateHelperOf: fn is called only by functions of `allowed` (or by private
@@ -397,4 +483,123 @@ func (c *Ctx) privateHelperOf(fn string, allowed map[string]string, depth int) (
 		return "", false
 	}
 	return owner, owner != ""
+}
+
+// confinedReader: every access of fn to structName.field loads the value and uses it only to index it, take its
+// length, range over it or slice it for the same uses — the value (a slice sharing the backing array) is not
+// passed on, stored or returned.
+func (c *Ctx) confinedReader(fnName, structName, field string) bool {
+	var confined func(v ssa.Value, depth int) bool
+	confined = func(v ssa.Value, depth int) bool {
+		refs := v.Referrers()
+		if refs == nil || depth > 4 {
+			return false
+		}
+		for _, r := range *refs {
+			switch r := r.(type) {
+			case *ssa.DebugRef:
+			case *ssa.IndexAddr:
+				if addrStored(r) {
+					return false
+				}
+				for _, rr := range *r.Referrers() {
+					if u, ok := rr.(*ssa.UnOp); !ok || u.Op != token.MUL {
+						if _, dbg := rr.(*ssa.DebugRef); !dbg {
+							return false
+						}
+					}
+				}
+			case *ssa.Index, *ssa.Lookup, *ssa.Range:
+			case *ssa.Slice:
+				if !confined(r, depth+1) {
+					return false
+				}
+			case *ssa.Call:
+				if b, ok := r.Call.Value.(*ssa.Builtin); ok {
+					if b.Name() != "len" && b.Name() != "cap" {
+						return false
+					}
+					continue
+				}
+				// handed to a module function that itself only indexes / measures the parameter (a decoder)
+				callee := r.Call.StaticCallee()
+				if callee == nil || callee.Blocks == nil || r.Call.IsInvoke() {
+					return false
+				}
+				args := r.Call.Args
+				for i, a := range args {
+					if a == v {
+						if i >= len(callee.Params) || !confined(callee.Params[i], depth+1) {
+							return false
+						}
+					}
+				}
+			default:
+				return false
+			}
+		}
+		return true
+	}
+	found := false
+	for _, fn := range c.allFuncs() {
+		if ssaFuncName(fn) != fnName {
+			continue
+		}
+		for _, b := range fn.Blocks {
+			for _, ins := range b.Instrs {
+				switch ins := ins.(type) {
+				case *ssa.FieldAddr:
+					name, st := structOf(ins.X.Type())
+					if st == nil || name != structName || st.Field(ins.Field).Name() != field {
+						continue
+					}
+					found = true
+					for _, r := range *ins.Referrers() {
+						switch r := r.(type) {
+						case *ssa.DebugRef:
+						case *ssa.UnOp:
+							if r.Op != token.MUL || !confined(r, 0) {
+								return false
+							}
+						default:
+							return false
+						}
+					}
+				case *ssa.Field:
+					name, st := structOf(ins.X.Type())
+					if st == nil || name != structName || st.Field(ins.Field).Name() != field {
+						continue
+					}
+					found = true
+					if !confined(ins, 0) {
+						return false
+					}
+				}
+			}
+		}
+	}
+	return found
+}
+
+// compilerReach: the names of the functions reachable from parse (the compiler's entry point).
+func (c *Ctx) compilerReach() map[string]bool {
+	if c.memoTab == nil {
+		c.memoTab = map[string]any{}
+	}
+	if m, ok := c.memoTab["compilerReach"]; ok {
+		return m.(map[string]bool)
+	}
+	out := map[string]bool{}
+	obj, _ := c.find("parse")
+	if obj == nil {
+		c.memoTab["compilerReach"] = out
+		return nil
+	}
+	for f := range reachable(c.VTA(), c.ssaFunc(obj)) {
+		if inRepo(f) {
+			out[ssaFuncName(f)] = true
+		}
+	}
+	c.memoTab["compilerReach"] = out
+	return out
 }
